@@ -361,8 +361,7 @@ func (vm *Type) Run(retResult bool) (value.Type, error) {
 
 		case bytecode.FUNC:
 			val := vm.fetch(instr.Src0(), instr.Src0Addr(), m, ds)
-			frame := m.Top()
-			val.SetFrame(&frame)
+			val.SetFrame(m.CaptureTop())
 			m.Push(val)
 
 		case bytecode.CALL:
@@ -380,19 +379,13 @@ func (vm *Type) Run(retResult bool) (value.Type, error) {
 			}
 
 			m.PushFrame(args, fVal.LocalCnt)
-			m.PushClosure(*fVal.Frame)
+			m.PushClosure(fVal.Frame)
 			m.Push(value.NewInt(ip))
 
 			ip = fVal.Node - 1
 
 		case bytecode.RET:
 			val := vm.fetch(instr.Src0(), instr.Src0Addr(), m, ds)
-
-			f, ok := val.ToFunction()
-			if ok && f.Frame != nil {
-				frame := slices.Clone(*f.Frame)
-				val.SetFrame(&frame)
-			}
 
 			nip := m.IP()
 			if nip == nil {
@@ -623,6 +616,7 @@ func deleteContext(ctxp *context, freeList *list.List) {
 	})
 
 	ctxp.children.Clear()
+	ctxp.m.Release()
 
 	freeList.PushFront(ctxp)
 }
